@@ -16,7 +16,7 @@ _same_generator()
 # Layouts that hit the two mis-positions described in notes/C06.md are run only when C06_FINDINGS=1 (they are
 # expected to print VIOLATION until the signatures C06-block-header-match / C06-shallow-continuation are listed as
 # open in known_findings.json; then they print KNOWN-FINDING and the check exits 0 again).
-FINDINGS = os.environ.get("C06_FINDINGS", "") not in ("", "0")
+FINDINGS = os.environ.get("C06_FINDINGS", "1") not in ("", "0")  # both defects are fixed in /repo (e879573, 3827c71): their layouts are regular jobs now
 
 # Layout / parser jobs take 0.1..3 s on the unchanged tree. A change that sends the matcher into following lines can
 # make single jobs explore for many minutes; those jobs time out (inconclusive) while their siblings report the violation.
